@@ -169,7 +169,9 @@ def make_data(rng, kind, lead, K, N, D, cls='gauss', dtype=None, E=None, spread=
         y = gen.hostile(rng, y, cls, real=True)
         if offset:
             # data far from the origin relative to its spread (|mean|/std = offset): exposes cancellation in E[y^2] - mean^2 rewrites
-            y = (y + offset * float(np.std(y)) * oracles.unit(rng.standard_normal((1,) * (y.ndim - 1) + (D,)))).astype(y.dtype)
+            # (per independent slice: hostile classes give the slices very different scales, and an offset of 1e6 global standard
+            # deviations would put a quiet slice beyond the resolution of its own dtype)
+            y = (y + offset * np.std(y, axis=(-2, -1), keepdims=True) * oracles.unit(rng.standard_normal((1,) * (y.ndim - 1) + (D,)))).astype(y.dtype)
         return dict(y=y, lab=lab)
     # integration: same labels for both streams
     F, = lead
